@@ -4,7 +4,7 @@ From Coq Require Import String Ascii List Bool.
 From KV Require Import Lib.Str Model.Vpp Gen.UmlSrc Model.Uml Spec.UmlSpec Proofs.UmlProofs Proofs.UmlFiles
                        Model.UmlBlob Model.UmlWriter Gen.UmlBlobShipped Proofs.UmlBlobDefs Proofs.UmlBlobStruct Proofs.UmlBlobText
                        Proofs.UmlBlobTop Proofs.UmlBlobRound Proofs.UmlBlobVis Proofs.UmlBlobCompose Proofs.UmlBlobCalib Proofs.UmlBlobPins
-                       Model.UmlSem Gen.UmlSemShipped Proofs.UmlSemExample Proofs.UmlSemCalib Proofs.UmlSemTop.
+                       Model.UmlDomain Model.UmlSem Gen.UmlSemShipped Proofs.UmlSemExample Proofs.UmlSemCalib Proofs.UmlSemTop.
 Import ListNotations.
 Open Scope string_scope.
 
@@ -267,8 +267,12 @@ Print Assumptions C19_adaptor_source_shape.
    parameters with basic or referenced type, direction, modifier, default, multiplicity), attributes, enumeration literals;
    packages with the paths of their members; generalisations / realisations between paths; ASSOCIATIONS (documentation, two
    ends in either order, each with the class path it is attached to, multiplicity or none, aggregation kind, visibility code or
-   the static code 68, getter / setter / read-only flags); other shapes; the referenced elements (stereotypes, data types).  Every element carries a layout: its properties in ANY order with any noise
-   properties in between.  encode_project D = the project file the assumed writer produces (tree_of: the structured blobs).
+   the static code 68, getter / setter / read-only flags); other shapes; the referenced elements (stereotypes, data types).
+   Every element carries a layout: its properties in ANY order, with any number of INERT properties in between -- scalars (also
+   with a blank value), reference lists, owned elements the reader has no interest in (model views, qualifiers, ...), free text
+   (an HTML documentation) -- exactly as they are written, and its own line break style (CR LF or LF).  Documentation is a plain
+   text or ANY quoted text (DRaw: line breaks, apostrophes, parentheses; the specification then says what mass_replace leaves of
+   it: K-C19-7).  encode_project D = the project file the assumed writer produces (tree_of: the structured blobs).
    cdiagram_of D / rdiagram_of D = the specification (it never looks at a blob): names, namespaces from the package chain,
    stereotype flags, visibility, parameters with direction / multiplicity / default, realisation vs generalisation, exactly
    the shapes of the selected diagram.
@@ -278,7 +282,10 @@ Print Assumptions C19_adaptor_source_shape.
    without ',' and apostrophe, no blank at the ends; VALUES (defaults, initial values, multiplicities, modifiers, documentation)
    likewise but ',' allowed (nullptr, nullptr) unless nothing but commas is left; ids and element names without ':' (the name of an
    association may hold colons); noise keys not among the
-   keys the reader looks for; no property key written twice; type names unchanged by CleanModifiersFromType; every referenced
+   keys the reader looks for; inert properties: in the text domain, their keys none of the keys the reader looks up in that kind
+   of element and containing none of the words it scans keys for, owned elements not of a type the reader would take for a
+   member (inert_ok, per kind of element); str(bytes) of every row delimits with apostrophes (quote_ok); no property key written
+   twice; every referenced
    id known; every element drawn once; a class on at most one package path; package paths made of drawn packages. *)
 Theorem C19_adaptor_roundtrip : forall D : sdiagram, sdiagram_ok D = true ->
   adaptor (encode_project D) (sd_name D) = Some (cdiagram_of D).
@@ -297,18 +304,21 @@ Theorem C19_adaptor_roundtrip_hosted : forall (D : sdiagram) (d : db), sdiagram_
 Proof. exact adaptor_roundtrip_hosted. Qed.
 Print Assumptions C19_adaptor_roundtrip_hosted.
 
-(* Calibration of the semantic domain on the shipped project: both shipped class diagrams re-expressed as semantic diagrams
-   (Gen/UmlSemShipped.v, regenerated on every run from what the real adaptor reads; the harness checks on every run that they
-   mean the object graphs read from kojen/test/blob.xml): 20 / 10 classes, 3 / 2 packages, 8 / 1 associations, 7 / 7
-   inheritance entries, with defaults such as  nullptr, nullptr , initial values such as  1.0, 2.0, 3.0  and an association whose
-   name holds a colon.  BOTH lie in the domain of C19_adaptor_roundtrip.  (Their layout is the semantic writer's: the noise is
-   scalar properties; the nested model views, qualifiers, reference lists and HTML texts of the real rows are covered by the text
-   and structural theorems, C19_adaptor_calibration.) *)
+(* Calibration of the semantic domain on the shipped project: THE two shipped class diagrams as semantic diagrams
+   (Gen/UmlSemShipped.v, regenerated on every run from kojen/test/blob.xml: what the semantic model knows about each element
+   -- 157 and 357 properties -- and every other property of the rows, 461 and 999 of them, as inert properties: model views,
+   qualifiers, reference lists, HTML documentation, author and time stamps; documentation texts with line breaks, apostrophes
+   and parentheses as DRaw; defaults such as  nullptr, nullptr ; an association whose name holds a colon; rows with CR LF and rows
+   with LF line breaks).  Writing them reproduces the shipped rows BYTE FOR BYTE (encode_project = the project of the rows read off
+   blob.xml, which C19_adaptor_calibration ties to the stored file), and BOTH lie in the domain of C19_adaptor_roundtrip: the
+   theorem speaks about the shipped project itself.  (The harness also runs the real adaptor on the shipped file and compares
+   with the extracted rdiagram_of.) *)
 Theorem C19_adaptor_semantic_calibration :
-  map sd_name shipped_sem = ["TestClassDiagram"; "ProtocolStack"]
-  /\ map sem_counts shipped_sem = [(20, 3, 8, 7); (10, 2, 1, 7)]
-  /\ (map sdiagram_ok shipped_sem = [true; true] /\ map colon_named shipped_sem = [["Const: This should appear in constructor"]; []]).
-Proof. exact (conj calib_sem_names (conj calib_sem_counts calib_sem_domain)). Qed.
+  map sd_name shipped_sem = ["ProtocolStack"; "TestClassDiagram"]
+  /\ map sem_counts shipped_sem = [(10, 2, 1, 7); (20, 3, 8, 7)]
+  /\ map encode_project shipped_sem = map encode_cdiagram shipped_W
+  /\ (map sdiagram_ok shipped_sem = [true; true] /\ map count_slots shipped_sem = [(157, 461); (357, 999)]).
+Proof. exact (conj calib_sem_names (conj calib_sem_counts (conj calib_sem_exact calib_sem_domain))). Qed.
 Print Assumptions C19_adaptor_semantic_calibration.
 
 Example C19_adaptor_roundtrip_nonvacuous :
